@@ -1374,5 +1374,303 @@ theorem C16_nth1_errors (n l e : Term) : ErrorsOk "nth1" [n, l, e] (Rel.nth1 n l
   refine errorsOk_of _ _ rfl ?_ h
   cases n <;> rfl
 
+/-! ## length/2 -/
+
+/-- length/2 when the first argument is a proper list of arbitrary (possibly non-ground) elements:
+    exactly its length; the length argument may be any pattern, also a variable of the list -/
+theorem C16_length_exact_list {k : Nat} {es : List Term} {len : Term} {ans : Answers}
+    (h : Rel.length k (Term.list es) len = .ok ans) :
+    ExactInst lengthT [Term.list es, len] ans := by
+  unfold Rel.length at h
+  simp only [spine_list_nil] at h
+  split at h
+  · cases h
+  · rename_i hcpi
+    have hrel : ∀ σ : Nat → Term, ∀ m : Int, lengthT [substT σ (Term.list es), .int m] ↔ m = Int.ofNat es.length := by
+      intro σ m
+      rw [substT_list]
+      have : substT σ Term.nilT = Term.nilT := by simp [Term.nilT, substT]
+      rw [this]
+      simp [lengthT]
+    have hmatch : ∀ skipped, es.length ≤ skipped →
+        lengthSuffix k [Term.list es, len] len es.length (Term.list (es.drop skipped) Term.nilT) =
+          .ok (unifyAns [Term.list es, len] len (.int (Int.ofNat es.length))) := by
+      intro sk hsk
+      rw [list_drop_of_ge _ hsk]
+      simp [lengthSuffix, Term.nilT]
+    have hexact : ExactInst lengthT [Term.list es, len]
+        (unifyAns [Term.list es, len] len (.int (Int.ofNat es.length))) := by
+      apply exactInst_unifyAns (by simp [groundT])
+      · intro σ hσ
+        simp only [List.map, hσ]
+        exact (hrel σ _).mpr rfl
+      · intro σ hr
+        simp only [List.map] at hr
+        cases hs : substT σ len <;> simp only [hs] at hr
+        all_goals (try (simp [lengthT] at hr))
+        rename_i m
+        rw [(hrel σ m).mp hr]
+    cases len with
+    | var v =>
+      simp only [skipMax] at h
+      rw [hmatch _ (Nat.le_refl _)] at h
+      cases h; exact hexact
+    | int n =>
+      simp only [skipMax] at h
+      by_cases hlt : n.toNat < es.length
+      · -- the list is longer than the given length
+        have hmin : min n.toNat es.length = n.toNat := by omega
+        simp only [hmin] at h
+        obtain ⟨e, rest, hsuf⟩ := list_drop_of_lt Term.nilT hlt
+        rw [hsuf] at h
+        simp only [Term.consT, lengthSuffix] at h
+        cases h
+        apply exactInst_nil
+        rintro t hr ⟨σ, rfl⟩
+        simp only [List.map, substT_int] at hr
+        have := (hrel σ n).mp hr
+        simp only [Int.ofNat_eq_natCast] at this
+        omega
+      · have hmin : min n.toNat es.length = es.length := by omega
+        simp only [hmin] at h
+        rw [hmatch _ (Nat.le_refl _)] at h
+        cases h; exact hexact
+    | atom _ => simp [checkPositiveInteger] at hcpi
+    | flt _ => simp [checkPositiveInteger] at hcpi
+    | str _ => simp [checkPositiveInteger] at hcpi
+    | app _ _ => simp [checkPositiveInteger] at hcpi
+
+theorem lengthT_partial_iff (es : List Term) (s : Nat) (σ : Nat → Term) (m : Int) :
+    lengthT [substT σ (Term.list es (.var s)), .int m] ↔
+      ∃ r, σ s = Term.list r ∧ m = Int.ofNat (es.length + r.length) := by
+  rw [substT_list]
+  simp only [lengthT, substT]
+  constructor
+  · intro h
+    split at h
+    · rename_i es' hes'
+      obtain ⟨r, hr, rfl⟩ := asList_list_tail hes'
+      exact ⟨r, asList_eq_some_iff.mp hr, by simp [h]⟩
+    · exact h.elim
+  · rintro ⟨r, hr, rfl⟩
+    rw [hr, ← list_append]
+    simp
+
+/-- length/2 generating a list of a given length: `length([e₁,…|T], N)` with `N` an integer binds
+    the tail to `N - n` fresh, pairwise distinct variables — the most general list of that length -/
+theorem C16_length_exact_rundown {k : Nat} {es : List Term} {s : Nat} {n : Int} {ans : Answers}
+    (h : Rel.length k (Term.list es (.var s)) (.int n) = .ok ans) :
+    ExactInst lengthT [Term.list es (.var s), .int n] ans := by
+  unfold Rel.length at h
+  have hsp : (Term.list es (Term.var s)).spine = (es, .var s) := by simp [spine_list]
+  simp only [hsp, checkPositiveInteger, skipMax] at h
+  split at h
+  · cases h
+  · rename_i hcpi
+    have hn : 0 ≤ n := by
+      by_cases hneg : n < 0
+      · simp [hneg] at hcpi
+      · omega
+    by_cases hlt : n.toNat < es.length
+    · have hmin : min n.toNat es.length = n.toNat := by omega
+      simp only [hmin] at h
+      obtain ⟨e, rest, hsuf⟩ := list_drop_of_lt (Term.var s) hlt
+      rw [hsuf] at h
+      simp only [Term.consT, lengthSuffix] at h
+      cases h
+      apply exactInst_nil
+      rintro t hr ⟨σ, rfl⟩
+      simp only [List.map, substT_int] at hr
+      obtain ⟨r, _, hm⟩ := (lengthT_partial_iff es s σ n).mp hr
+      simp only [Int.ofNat_eq_natCast] at hm
+      omega
+    · have hmin : min n.toNat es.length = es.length := by omega
+      simp only [hmin] at h
+      rw [list_drop_of_ge _ (Nat.le_refl _)] at h
+      simp only [lengthSuffix] at h
+      split at h
+      · cases h
+      · cases h
+        generalize hb : boundL [Term.list es (Term.var s), Term.int n] = b
+        have hc : (n - Int.ofNat es.length).toNat + es.length = n.toNat := by
+          simp only [Int.ofNat_eq_natCast]; omega
+        generalize hcc : (n - Int.ofNat es.length).toNat = c at hc
+        have hans : [Term.list es (Term.var s), Term.int n].map (substT (bind1 s (Term.list (freshVars b c)))) =
+            [Term.list (es.map (substT (bind1 s (Term.list (freshVars b c)))) ++ freshVars b c), .int n] := by
+          simp [substT_list, substT, bind1, list_append]
+        rw [hans]
+        refine ⟨?_, ?_, by simp⟩
+        · intro t ht
+          simp at ht; subst ht
+          refine ⟨?_, ⟨_, hans.symm⟩⟩
+          simp only [lengthT, asList_list, List.length_append, List.length_map, freshVars, List.length_range,
+            Int.ofNat_eq_natCast]
+          omega
+        · rintro t hr ⟨σ, rfl⟩
+          refine ⟨[Term.list (es.map (substT (bind1 s (Term.list (freshVars b c)))) ++ freshVars b c), .int n],
+            by simp, ?_⟩
+          rw [← hans]
+          simp only [List.map, substT_int] at hr
+          obtain ⟨r, hσs, hm⟩ := (lengthT_partial_iff es s σ n).mp hr
+          have hrl : r.length = c := by simp only [Int.ofNat_eq_natCast] at hm; omega
+          subst hrl
+          refine ⟨fun v => if v < b then σ v else assign b r v, ?_⟩
+          have hgen := generated_instance (b := b) (γ := bind1 s (Term.list (freshVars b r.length))) (σ := σ)
+            (s := s) (r := r) (by simp [bind1]) hσs (fun v hv _ => Or.inl (by simp [bind1, hv]))
+          simp only [List.map, substT_int, List.cons.injEq, and_true]
+          exact (hgen _ (by rw [← hb]; exact boundT_le_boundL (by simp))).symm
+
+example : Rel.length 9 (Term.list [.atom "a"] (.var 0)) (.int 3) =
+    .ok [[Term.list [.atom "a", .var 1, .var 2], .int 3]] := by decide +kernel
+
+/-- the j-th answer substitution of `lengthAddendum` -/
+def addendum (b s nv skipped j : Nat) : Nat → Term := fun v =>
+  if v = s then Term.list (freshVars b j)
+  else if v = nv then .int (Int.ofNat (skipped + j))
+  else .var v
+
+/-- length/2 with list tail and length both unbound — an infinite enumeration, stated per prefix:
+    the first `k` answers are, in order, the most general lists of length `n, n+1, …, n+k-1`
+    (`n` = number of known elements), each a tuple of the relation, pairwise different, and every
+    tuple of the relation of one of these lengths that is an instance of the call is an instance of
+    the answer of that length. -/
+theorem C16_length_enum {k : Nat} {es : List Term} {s nv : Nat} {ans : Answers} (hne : nv ≠ s)
+    (h : Rel.length k (Term.list es (.var s)) (.var nv) = .ok ans) :
+    let args := [Term.list es (.var s), .var nv]
+    ans = (List.range k).map (fun j => args.map (substT (addendum (boundL args) s nv es.length j))) ∧
+    (∀ j, j < k → ∃ l, ans[j]? = some [l, .int (Int.ofNat (es.length + j))] ∧
+        lengthT [l, .int (Int.ofNat (es.length + j))] ∧ IsInstance args [l, .int (Int.ofNat (es.length + j))]) ∧
+    ans.Nodup ∧
+    (∀ t, lengthT t → IsInstance args t → ∃ j, t[1]? = some (.int (Int.ofNat (es.length + j))) ∧
+        (j < k → ∃ a, ans[j]? = some a ∧ IsInstance a t)) := by
+  intro args
+  unfold Rel.length at h
+  have hsp : (Term.list es (Term.var s)).spine = (es, .var s) := by simp [spine_list]
+  simp only [hsp, checkPositiveInteger, skipMax] at h
+  rw [list_drop_of_ge _ (Nat.le_refl _)] at h
+  simp only [lengthSuffix, hne, if_false] at h
+  cases h
+  generalize hb : boundL [Term.list es (Term.var s), Term.var nv] = b
+  have hans : ∀ j, args.map (substT (addendum b s nv es.length j)) =
+      [Term.list (es.map (substT (addendum b s nv es.length j)) ++ freshVars b j), .int (Int.ofNat (es.length + j))] := by
+    intro j
+    simp [args, substT_list, substT, addendum, list_append, hne]
+  have hmap : (List.range k).map (fun j =>
+      [Term.list es (Term.var s), Term.var nv].map (substT fun v =>
+        if v = s then Term.list (freshVars b j)
+        else if v = nv then .int (Int.ofNat (es.length + j)) else .var v)) =
+      (List.range k).map (fun j => args.map (substT (addendum b s nv es.length j))) := rfl
+  rw [hmap]
+  refine ⟨rfl, ?_, ?_, ?_⟩
+  · intro j hj
+    refine ⟨Term.list (es.map (substT (addendum b s nv es.length j)) ++ freshVars b j), ?_, ?_, ?_⟩
+    · simp [hj, hans j]
+    · simp [lengthT, freshVars]
+    · exact ⟨addendum b s nv es.length j, (hans j).symm⟩
+  · apply nodup_map_on _ List.nodup_range
+    intro i _ j _ hij
+    rw [hans i, hans j] at hij
+    simp only [List.cons.injEq, Term.int.injEq, and_true, Int.ofNat_eq_natCast] at hij
+    omega
+  · rintro t hr ⟨σ, rfl⟩
+    simp only [args, List.map] at hr
+    cases hs : substT σ (Term.var nv) with
+    | int m =>
+      rw [hs] at hr
+      obtain ⟨r, hσs, hm⟩ := (lengthT_partial_iff es s σ m).mp hr
+      refine ⟨r.length, by simp [args, hs, hm], ?_⟩
+      intro hj
+      refine ⟨args.map (substT (addendum b s nv es.length r.length)), by simp [hj], ?_⟩
+      refine ⟨fun v => if v < b then σ v else assign b r v, ?_⟩
+      have hgen := generated_instance (b := b) (γ := addendum b s nv es.length r.length) (σ := σ)
+        (s := s) (r := r) (by simp [addendum]) hσs (by
+          intro v hv _
+          by_cases hvn : v = nv
+          · right
+            subst hvn
+            simp only [substT] at hs
+            simp [addendum, hv, hs, hm, groundT]
+          · left; simp [addendum, hv, hvn])
+      simp only [args, List.map, List.cons.injEq, and_true]
+      refine ⟨(hgen _ (by rw [← hb]; exact boundT_le_boundL (by simp))).symm,
+        (hgen _ (by rw [← hb]; exact boundT_le_boundL (by simp))).symm⟩
+    | var _ => rw [hs] at hr; simp [lengthT] at hr
+    | atom _ => rw [hs] at hr; simp [lengthT] at hr
+    | flt _ => rw [hs] at hr; simp [lengthT] at hr
+    | str _ => rw [hs] at hr; simp [lengthT] at hr
+    | app _ _ => rw [hs] at hr; simp [lengthT] at hr
+
+example : Rel.length 3 (Term.list [.atom "a"] (.var 0)) (.var 1) =
+    .ok [[Term.list [.atom "a"], .int 1], [Term.list [.atom "a", .var 2], .int 2],
+         [Term.list [.atom "a", .var 2, .var 3], .int 3]] := by decide +kernel
+
+theorem suffix_var {es : List Term} {k : Nat} {tl : Term} {s : Nat}
+    (h : Term.list (es.drop k) tl = .var s) : es.length ≤ k ∧ tl = .var s := by
+  by_cases hk : k < es.length
+  · obtain ⟨e, rest, he⟩ := list_drop_of_lt tl hk
+    rw [he] at h; simp [Term.consT] at h
+  · rw [list_drop_of_ge tl (by omega)] at h
+    exact ⟨by omega, h⟩
+
+theorem modeErrors_length (l n : Term) : modeErrors "length" [l, n] = notLessThanZero n := rfl
+
+theorem optionalErrors_length_int (l : Term) (n : Int) : optionalErrors "length" [l, .int n] =
+    match l.spine.2 with
+    | .var _ => if n - Int.ofNat l.spine.1.length > 1048576 then [resourceErr "memory"] else []
+    | _ => [] := rfl
+
+theorem optionalErrors_length_var (l : Term) (n : Nat) : optionalErrors "length" [l, .var n] =
+    if l.spine.2 = .var n then [resourceErr "finite_memory"] else [] := rfl
+
+theorem C16_length_errors (k : Nat) (l len : Term) : ErrorsOk "length" [l, len] (Rel.length k l len) := by
+  cases len with
+  | int n =>
+    apply errorsOk_of _ _ (modeErrors_length l _) (optionalErrors_length_int l n)
+    rw [nlz_eq]
+    have hinst := instErr_not_mem_cpi (.int n)
+    unfold Rel.length
+    cases hc : checkPositiveInteger (.int n) with
+    | some e => simp
+    | none =>
+      simp only [hc, Option.toList_none, List.nil_append, List.not_mem_nil, false_imp_iff, and_true, true_imp_iff]
+      generalize hsk : skipMax (Term.int n) l.spine.1 = sk
+      have hskle : sk ≤ l.spine.1.length := by simp only [skipMax] at hsk; omega
+      cases hsuf : Term.list (l.spine.1.drop sk) l.spine.2 with
+      | var s =>
+        obtain ⟨h1, h2⟩ := suffix_var hsuf
+        have hske : sk = l.spine.1.length := by omega
+        simp only [lengthSuffix, h2, hske, allocLimit]
+        by_cases hbig : 17592186044416 < n - (l.spine.1.length : Int)
+        · have : 1048576 < n - (l.spine.1.length : Int) := by omega
+          simp [hbig, this]
+        · simp [hbig]
+      | atom a => simp only [lengthSuffix]; split <;> simp
+      | int _ => simp [lengthSuffix]
+      | flt _ => simp [lengthSuffix]
+      | str _ => simp [lengthSuffix]
+      | app _ _ => simp [lengthSuffix]
+  | var nv =>
+    apply errorsOk_of _ _ (modeErrors_length l _) (optionalErrors_length_var l nv)
+    unfold Rel.length
+    simp only [checkPositiveInteger, notLessThanZero, List.nil_append, List.not_mem_nil, false_imp_iff, and_true,
+      true_imp_iff, skipMax]
+    cases hsuf : Term.list (l.spine.1.drop l.spine.1.length) l.spine.2 with
+    | var s =>
+      obtain ⟨_, h2⟩ := suffix_var hsuf
+      simp only [lengthSuffix, h2, Term.var.injEq]
+      by_cases hnv : nv = s
+      · simp [hnv]
+      · have : ¬ s = nv := fun h => hnv h.symm
+        simp [hnv, this]
+    | atom a => simp only [lengthSuffix]; split <;> simp
+    | int _ => simp [lengthSuffix]
+    | flt _ => simp [lengthSuffix]
+    | str _ => simp [lengthSuffix]
+    | app _ _ => simp [lengthSuffix]
+  | atom _ => exact errorsOk_of _ [] (modeErrors_length l _) rfl (by simp [Rel.length, checkPositiveInteger, notLessThanZero])
+  | flt _ => exact errorsOk_of _ [] (modeErrors_length l _) rfl (by simp [Rel.length, checkPositiveInteger, notLessThanZero])
+  | str _ => exact errorsOk_of _ [] (modeErrors_length l _) rfl (by simp [Rel.length, checkPositiveInteger, notLessThanZero])
+  | app _ _ => exact errorsOk_of _ [] (modeErrors_length l _) rfl (by simp [Rel.length, checkPositiveInteger, notLessThanZero])
+
 
 end PrologVerif.C16
